@@ -221,6 +221,35 @@ def covering_walks(prints, cap, rng):
 
 
 # ------------------------------------------------------------------------------------------------------------------
+def n_parallel():
+    w = int(os.environ.get("VERIF_TLC_WORKERS", "0")) or vlib.NCPU
+    return max(1, w // 2)
+
+
+def par_tlc(jobs):
+    """jobs: list of dicts of vlib.tlc keyword arguments (module, cfg, ...) -> list of TlcResult, run concurrently
+    (2 workers each; VERIF_TLC_WORKERS limits the total)."""
+    from concurrent.futures import ThreadPoolExecutor
+
+    def one(j):
+        j = dict(j)
+        module, cfg = j.pop("module"), j.pop("cfg")
+        j.setdefault("workers", 2)
+        return vlib.tlc(MOD, module, cfg, **j)
+    with ThreadPoolExecutor(n_parallel()) as ex:
+        return list(ex.map(one, jobs))
+
+
+def settle(c, module, cfg, r, must_hold=True):
+    """what vlib.model_check does with a result (evidence + tool failure on a model error)"""
+    if r.error and re.search(r"Temporal propert\w+ .*violated", r.error):     # wording vlib does not know
+        r.violated, r.error = r.violated or "temporal", None
+    c.add_model_run(module, os.path.basename(cfg), r)
+    if r.error or (must_hold and r.violated) or (not r.completed and not r.violated):
+        raise vlib.ToolFailure("model check %s %s failed: violated=%s error=%s\n%s" % (module, cfg, r.violated, r.error, r.out[-4000:]))
+    return r
+
+
 def gen_cfg(c, p, mode, d, nomix, name):
     return vlib.write_cfg(c, name, "CONSTANTS %s FixSingle = FALSE Mode = \"%s\" D = %d NoMix = %s\n"
                                    "SPECIFICATION GSpec\nINVARIANTS MTypeOK Emit\nCHECK_DEADLOCK FALSE\n"
@@ -232,9 +261,19 @@ def trace_cfg(c, p):
                                                         "INVARIANTS TypeOK GhostOK\nCHECK_DEADLOCK FALSE\n" % sizes_consts(p))
 
 
-def model_level(c, workers):
-    """design level: property model, machine vs. property model; returns model counterexample behaviours per partition"""
+def ref_cfg(c, p, name, nidx, iidx, spec, props, hist, last=True, fix=False):
+    return vlib.write_cfg(c, name, "CONSTANTS %s FixSingle = " + ("TRUE" if fix else "FALSE") + " TrackLast = %s TrackHist = %s NIdx = {%s} IIdx = {%s}\n"
+                                   "SPECIFICATION %s\n%sINVARIANTS MTypeOK\n%sCHECK_DEADLOCK FALSE\n"
+                          % (sizes_consts(p), "TRUE" if last else "FALSE", "TRUE" if hist else "FALSE",
+                             ",".join(str(i) for i in nidx), ",".join(str(i) for i in iidx), spec,
+                             "VIEW RView\n" if hist else "", ("PROPERTIES %s\n" % props) if props else ""))
+
+
+def model_level(c):
+    """design level: property model, machine vs. property model; returns the machine model's counterexample
+    behaviours per partition (replayed on the real code by queue_level)"""
     quick = c.quick
+    jobs = []       # (kind, partition, tlc kwargs)
     # 1. the property-level model and its listed properties
     for p in ([(2, 0, 0), (1, 1, 0)] if quick else [(2, 0, 0), (1, 1, 0), (1, 2, 0), (2, 1, 0)]):
         cfg = vlib.write_cfg(c, "mc_%s.cfg" % pname(p),
@@ -242,63 +281,64 @@ def model_level(c, workers):
                              "INVARIANTS TypeOK GhostOK DequeuePossible NotificationsContinue\n"
                              "PROPERTIES NewlyQueuedExact EachPendingDequeuedOnce PriorityOrder OneRoundFairness "
                              "AtMostOneOutstanding\n" % sizes_consts(p))
-        vlib.model_check(c, MOD, "NotifQueue.tla", cfg, workers=workers)
-    # 2. liveness of the property-level model (fair spec, no constraint)
+        jobs.append(("hold", p, dict(module="NotifQueue.tla", cfg=cfg, coverage=True)))
+    # 2. liveness of the property-level model (fair spec, finite model, no constraint)
     for p in ([(2, 0, 0)] if quick else [(2, 0, 0), (1, 1, 0), (1, 2, 0)]):
         cfg = vlib.write_cfg(c, "live_%s.cfg" % pname(p), "CONSTANTS %s TrackLast = FALSE\nSPECIFICATION FairSpec\n"
                                                           "PROPERTIES EventuallySent\n" % sizes_consts(p))
-        vlib.model_check(c, MOD, "NotifQueue.tla", cfg, workers=workers, coverage=False)
-    # 3. machine vs. property model in an environment where every level carries one kind only: must refine + be live
-    def ref_cfg(p, name, nidx, iidx, spec, props, hist, last=True):
-        n = sum(p)
-        return vlib.write_cfg(c, name, "CONSTANTS %s FixSingle = FALSE TrackLast = %s TrackHist = %s NIdx = {%s} IIdx = {%s}\n"
-                                       "SPECIFICATION %s\n%sINVARIANTS MTypeOK\n%sCHECK_DEADLOCK FALSE\n"
-                              % (sizes_consts(p), "TRUE" if last else "FALSE", "TRUE" if hist else "FALSE",
-                                 ",".join(str(i) for i in nidx), ",".join(str(i) for i in iidx), spec,
-                                 "VIEW RView\n" if hist else "",
-                                 ("PROPERTIES %s\n" % props) if props else ""))
-    homog = [((2, 1, 0), [2], [0, 1]), ((1, 2, 0), [1, 2], [0])] if quick else \
-            [((2, 1, 0), [2], [0, 1]), ((1, 2, 0), [1, 2], [0]), ((3, 0, 0), [], [0, 1, 2]), ((3, 0, 0), [0, 1, 2], []),
-             ((1, 1, 2), [0, 2, 3], [1])]
+        jobs.append(("hold", p, dict(module="NotifQueue.tla", cfg=cfg)))
+    # 3. machine vs. property model where every level carries one kind only: must refine and be live
+    homog = [((2, 1, 0), [2], [0, 1]), ((1, 2, 0), [1, 2], [0])]
+    if not quick:
+        homog += [((3, 0, 0), [], [0, 1, 2]), ((3, 0, 0), [0, 1, 2], []), ((1, 1, 2), [0, 2, 3], [1])]
     for k, (p, nidx, iidx) in enumerate(homog):
-        cfg = ref_cfg(p, "refh_%d.cfg" % k, nidx, iidx, "RSpec", "Refines", False)
-        vlib.model_check(c, MOD, "NotifQueueImplRef.tla", cfg, workers=workers, coverage=False)
-        cfg = ref_cfg(p, "refhl_%d.cfg" % k, nidx, iidx, "RFairSpec", "EventuallySent", False, last=False)
-        vlib.model_check(c, MOD, "NotifQueueImplRef.tla", cfg, workers=workers, coverage=False)
-    # 4. machine as it is, all calls: the monitor names every step the property does not allow
-    counter = {}
-    classes = {}
-    for p in ([(2, 0, 0), (1, 1, 0), (1, 2, 0)] if quick else [(2, 0, 0), (1, 1, 0), (1, 2, 0), (2, 1, 0), (3, 0, 0), (1, 1, 1)]):
+        jobs.append(("hold", p, dict(module="NotifQueueImplRef.tla",
+                                     cfg=ref_cfg(c, p, "refh_%d.cfg" % k, nidx, iidx, "RFairSpec", "Refines EventuallySent", False))))
+    # 4. machine as it is, all calls: the monitor names every step the property model does not allow
+    for p in ([(2, 0, 0), (1, 1, 0)] if quick else [(2, 0, 0), (1, 1, 0), (1, 2, 0), (2, 1, 0), (1, 1, 1)]):
         n = sum(p)
-        cfg = ref_cfg(p, "refm_%s.cfg" % pname(p), range(n), range(n), "RSpec", "", True)
-        r = vlib.tlc(MOD, "NotifQueueImplRef.tla", cfg, workers=workers)
-        c.add_model_run("NotifQueueImplRef", os.path.basename(cfg), r)
-        if r.error or not r.completed:
-            raise vlib.ToolFailure("monitor run failed: %s\n%s" % (r.error, r.out[-3000:]))
-        best = {}
-        for pr in r.prints:
-            if pr and pr[0] == "FINDING":
-                cls, hist = pr[1], json.loads(pr[2])
-                classes[cls] = classes.get(cls, 0) + 1
-                if cls not in best or len(hist) < len(best[cls]):
-                    best[cls] = hist
-        counter[p] = list(best.values())
-    c.extra["model_predicted_finding_classes"] = {k: v for k, v in sorted(classes.items())}
-    c.note("machine model as-is: %d classes of steps not allowed by the property model (each replayed on the real code)"
-           % len(classes))
-    # 5. liveness of the machine as it is (expected to fail through the fairness defects; bound to the code by the
-    #    'overtaken_twice' safety findings of the replayed traces)
+        jobs.append(("monitor", p, dict(module="NotifQueueImplRef.tla",
+                                        cfg=ref_cfg(c, p, "refm_%s.cfg" % pname(p), range(n), range(n), "RSpec", "", True))))
+    # 4b. the proposed repair of the Size = 1 specialisation (it keeps both bits): no refused request any more
+    jobs.append(("monitor_fix", (1, 1, 0), dict(module="NotifQueueImplRef.tla",
+                                                cfg=ref_cfg(c, (1, 1, 0), "refm_fix.cfg", range(2), range(2), "RSpec", "", True, fix=True))))
+    # 5. liveness of the machine as it is (C11): a lasso is expected through the fairness defects; it is bound to the
+    #    code by the 'overtaken_twice' findings of the replayed traces
     if c.prop == "C11":
-        p = (2, 0, 0)
-        cfg = ref_cfg(p, "refl_%s.cfg" % pname(p), range(2), range(2), "RFairSpec", "IndicationsEventuallySent", False, last=False)
-        r = vlib.model_check(c, MOD, "NotifQueueImplRef.tla", cfg, workers=workers, coverage=False, must_hold=False)
-        c.extra["machine_liveness_as_is"] = "violated (lasso found)" if r.violated else "holds"
-        c.note("machine as-is, fair spec, IndicationsEventuallySent on %s: %s" % (pname(p), c.extra["machine_liveness_as_is"]))
+        jobs.append(("live_asis", (2, 0, 0), dict(module="NotifQueueImplRef.tla",
+                                                  cfg=ref_cfg(c, (2, 0, 0), "refl.cfg", range(2), range(2), "RFairSpec",
+                                                              "IndicationsEventuallySent", False, last=False))))
+        cfg = vlib.write_cfg(c, "attmc.cfg", "CONSTANTS NC = 2\nSPECIFICATION ASpec\nINVARIANTS ATypeOK NotificationsContinue\n"
+                                             "PROPERTIES AtMostOneIndicationInFlight\n")
+        jobs.append(("hold", (0, 0, 0), dict(module="NotifQueueAtt.tla", cfg=cfg, coverage=True)))
+    results = par_tlc([j[2] for j in jobs])
+    counter, classes = {}, {}
+    for (kind, p, kw), r in zip(jobs, results):
+        settle(c, kw["module"][:-4], kw["cfg"], r, must_hold=(kind != "live_asis"))
+        if kind == "monitor":
+            best = {}
+            for pr in r.prints:
+                if pr and pr[0] == "FINDING":
+                    cls, hist = pr[1], json.loads(pr[2])
+                    classes[cls] = classes.get(cls, 0) + 1
+                    if cls not in best or len(hist) < len(best[cls]):
+                        best[cls] = hist
+            counter[p] = list(best.values())
+        if kind == "monitor_fix":
+            cls = sorted(set(pr[1] for pr in r.prints if pr and pr[0] == "FINDING"))
+            if any(json.loads(x)[0] == "queue" for x in cls):
+                raise vlib.ToolFailure("model of the repaired Size = 1 specialisation still refuses requests: %s" % cls)
+            c.extra["model_repaired_single_entry_level_classes"] = cls
+        if kind == "live_asis":
+            c.extra["machine_liveness_as_is"] = "violated (lasso found)" if r.violated else "holds"
+            c.note("machine as-is, fair spec, IndicationsEventuallySent on %s: %s" % (pname(p), c.extra["machine_liveness_as_is"]))
+    c.extra["model_predicted_finding_classes"] = {k: v for k, v in sorted(classes.items())}
+    c.note("machine model as-is: %d classes of steps the property model does not allow (a shortest history of each is "
+           "replayed on the real code)" % len(classes))
     return counter
 
 
 def run(c):
-    workers = int(os.environ.get("VERIF_TLC_WORKERS", "0")) or None
     c.assumptions += ["single context: calls do not overlap (interrupt interleavings are C13)",
                       "index < Size for every call (documented precondition)",
                       "one-round fairness is read as: while a request is pending and could be handed out, no other request "
@@ -308,85 +348,103 @@ def run(c):
     exe = vlib.build(c, "notifq", ["notifq/notifq_harness.cpp"])
     if c.replay:
         return replay(c, exe)
-    counter = model_level(c, workers)
-    queue_level(c, exe, counter, workers)
+    # VERIF_NOTIFQ_SKIP_MODEL=1 (development only, e.g. for source mutants): skip the design level runs, which do
+    # not depend on the code; the evidence then says so
+    if os.environ.get("VERIF_NOTIFQ_SKIP_MODEL"):
+        c.note("design level model checking SKIPPED (VERIF_NOTIFQ_SKIP_MODEL)")
+        counter = {}
+    else:
+        counter = model_level(c)
+    queue_level(c, exe, counter)
     if c.prop == "C11":
-        att_level(c, workers)
+        att_level(c)
 
 
-def queue_level(c, exe, counter, workers):
+def queue_level(c, exe, counter):
+    global SMALL, BIG
+    only = os.environ.get("VERIF_NOTIFQ_ONLY")          # development only: restrict the partitions (e.g. "2_0_0,1_2_0,5_0_0")
+    if only:
+        SMALL = [p for p in SMALL if pname(p) in only.split(",")]
+        BIG = [p for p in BIG if pname(p) in only.split(",")]
+        counter = {p: b for p, b in counter.items() if p in SMALL}
+        c.note("partitions RESTRICTED by VERIF_NOTIFQ_ONLY=%s" % only)
     rng = random.Random(c.seed)
     quick = c.quick
     cap = 300
     per_part = {}
     graph = {}
-    # a. every edge of the machine graph
+    # a. every edge of the machine graph, b. random deep walks (both profiles; also the big partitions)
+    nwalk, depth = (24, 120) if quick else (400, 200)
+    jobs = []
     for p in SMALL:
-        cfg = gen_cfg(c, p, "edges", 0, False, "edges_%s.cfg" % pname(p))
-        r = vlib.tlc(MOD, "NotifQueueImplGen.tla", cfg, workers=workers)
-        if r.violated or r.error or not r.completed:
-            raise vlib.ToolFailure("edge generator failed for %s: %s %s\n%s" % (p, r.violated, r.error, r.out[-2000:]))
-        c.add_model_run("NotifQueueImplGen", os.path.basename(cfg), r)
-        walks, n_states, n_edges = covering_walks(r.prints, cap, rng)
-        graph[pname(p)] = {"states": n_states, "edges": n_edges, "walks": len(walks), "calls": sum(len(w) for w in walks)}
-        per_part[p] = [("edge", w) for w in walks]
+        jobs.append(("edges", p, False, dict(module="NotifQueueImplGen.tla", cfg=gen_cfg(c, p, "edges", 0, False, "edges_%s.cfg" % pname(p)))))
+    for p in ([q for q in SMALL if sum(q) == 4] if quick else SMALL) + BIG:       # quick: smaller partitions by edges only
+        nw = nwalk * 3 if p in BIG else nwalk
+        for nomix in ([False, True] if has_single(p) else [False]):
+            jobs.append(("walks", p, nomix, dict(module="NotifQueueImplGen.tla",
+                                                 cfg=gen_cfg(c, p, "walks", depth, nomix, "walks_%s_%d.cfg" % (pname(p), nomix)),
+                                                 simulate=max(1, nw // 2), depth=depth + 1, seed=c.seed)))
+    results = par_tlc([j[3] for j in jobs])
+    for (kind, p, nomix, kw), r in zip(jobs, results):
+        if r.violated or r.error:
+            raise vlib.ToolFailure("generator failed for %s: %s %s\n%s" % (kw["cfg"], r.violated, r.error, r.out[-2000:]))
+        per_part.setdefault(p, [])
+        if kind == "edges":
+            if not r.completed:
+                raise vlib.ToolFailure("edge generator did not complete for %s" % kw["cfg"])
+            c.add_model_run("NotifQueueImplGen", os.path.basename(kw["cfg"]), r)
+            walks, n_states, n_edges = covering_walks(r.prints, cap, rng)
+            graph[pname(p)] = {"states": n_states, "edges": n_edges, "walks": len(walks), "calls": sum(len(w) for w in walks)}
+            per_part[p] += [("edge", w) for w in walks]
+        else:
+            behs = vlib.behaviours(r)
+            if not behs:
+                raise vlib.ToolFailure("walk generator produced nothing for %s\n%s" % (kw["cfg"], r.out[-2000:]))
+            per_part[p] += [("walk_nomix" if nomix else "walk", b) for b in behs]
     c.extra["machine_graph_edge_cover"] = graph
-    c.exhaustive = True
-    # b. the model's counterexamples
+    c.exhaustive = not only
+    # c. the machine model's counterexamples
     for p, behs in counter.items():
         per_part.setdefault(p, [])
         per_part[p] += [("model_cex", b) for b in behs]
-    # c. random deep walks (both profiles), all partitions incl. the big ones
-    nwalk, depth = (30, 120) if quick else (1500, 200)
-    for p in SMALL + BIG:
-        if p in BIG:
-            nw = nwalk * 3
-        else:
-            nw = nwalk
-        for nomix in ([False, True] if has_single(p) else [False]):
-            cfg = gen_cfg(c, p, "walks", depth, nomix, "walks_%s_%d.cfg" % (pname(p), nomix))
-            per_w = max(1, nw // 4)
-            behs = vlib.generate(c, MOD, "NotifQueueImplGen.tla", cfg, simulate=per_w, depth=depth + 1, seed=c.seed, workers=4)[:nw]
-            per_part.setdefault(p, [])
-            per_part[p] += [("walk_nomix" if nomix else "walk", b) for b in behs]
-    # replay everything on the real class, one trace file per partition (the partition is a constant of the trace spec)
+    # replay everything on the real class; the partition is a constant of the trace spec -> one trace set per partition
     jobs = []
     for p, behs in per_part.items():
-        lines = []
-        for kind, b in behs:
-            lines += script_of(p, b)
-        sp = vlib.write_lines(os.path.join(c.build_dir, "s_%s.txt" % pname(p)), lines)
-        tp = os.path.join(c.build_dir, "t_%s.ndjson" % pname(p))
-        rc, out = vlib.run_harness(exe, [sp, tp])
-        if rc != 0:
-            raise vlib.ToolFailure("harness failed rc=%d: %s" % (rc, out[-2000:]))
-        jobs.append((p, tp))
-    c.sample({"partition": list(SMALL[5]), "behaviour": per_part[SMALL[5]][0][1][:40]})
+        total = sum(len(b) + 4 for _, b in behs)
+        for k, part in enumerate(vlib.chunks(behs, max(1, min(16, total // 15000)))):
+            lines = []
+            for kind, b in part:
+                lines += script_of(p, b)
+            sp = vlib.write_lines(os.path.join(c.build_dir, "s_%s_%d.txt" % (pname(p), k)), lines)
+            tp = os.path.join(c.build_dir, "t_%s_%d.ndjson" % (pname(p), k))
+            rc, out = vlib.run_harness(exe, [sp, tp])
+            if rc != 0:
+                raise vlib.ToolFailure("harness failed rc=%d: %s" % (rc, out[-2000:]))
+            jobs.append((p, tp))
+    p0 = (1, 2, 0) if (1, 2, 0) in per_part else sorted(per_part)[0]
+    c.sample({"partition": list(p0), "behaviour": per_part[p0][0][1][:40]})
     by_action = {}
-    # biggest traces first
-    jobs.sort(key=lambda j: -os.path.getsize(j[1]))
-    verdicts = validate_many(c, jobs)
+    jobs.sort(key=lambda j: -os.path.getsize(j[1]))          # biggest traces first
+    verdicts = validate_many(c, "NotifQueueTrace.tla", [(trace_cfg(c, p), tp) for p, tp in jobs])
     for (p, tp), v in zip(jobs, verdicts):
         execs = vlib.split_executions(tp)
         c.add_traces(len(execs), v.events)
         for _, evs in execs:
             for ev in evs:
                 by_action[ev["e"]] = by_action.get(ev["e"], 0) + 1
-        why = parse_why(v.out)
-        report(c, p, execs, v.mismatch_lines, why)
+        report(c, p, execs, v.mismatch_lines, parse_why(v.out))
     c.extra["events_by_action"] = by_action
     for a in ("Reset", "qn", "qi", "dq", "cf", "cl", "Drained"):
         if not by_action.get(a):
             raise vlib.ToolFailure("vacuous: no '%s' event in the validated traces" % a)
-    if len(execs):
-        c.sample({"partition": list(jobs[-1][0]), "trace": vlib.split_executions(jobs[-1][1])[0][1][:30]})
+    c.sample({"partition": list(jobs[-1][0]), "trace": vlib.split_executions(jobs[-1][1])[0][1][:30]})
 
 
-def validate_many(c, jobs):
+def validate_many(c, module, jobs):
+    """jobs: list of (cfg, trace path) -> list of TraceVerdict (one TLC each, run concurrently)"""
     from concurrent.futures import ThreadPoolExecutor
-    n = max(1, min(len(jobs), vlib.NCPU // 2))
-    with ThreadPoolExecutor(n) as ex:
-        return list(ex.map(lambda j: vlib.validate_trace(MOD, "NotifQueueTrace.tla", trace_cfg(c, j[0]), j[1]), jobs))
+    with ThreadPoolExecutor(max(1, min(len(jobs), 2 * n_parallel()))) as ex:
+        return list(ex.map(lambda j: vlib.validate_trace(MOD, module, j[0], j[1]), jobs))
 
 
 def report(c, p, execs, mismatch_lines, why):
@@ -395,8 +453,8 @@ def report(c, p, execs, mismatch_lines, why):
         ev = evs[ln - first]
         for sig, props in signatures(why.get(ln)):
             if c.prop not in props:
-                c.extra.setdefault("mismatches_of_other_property", {})
-                c.extra["mismatches_of_other_property"][sig] = c.extra["mismatches_of_other_property"].get(sig, 0) + 1
+                other = c.extra.setdefault("mismatches_judged_by_the_other_property", {})
+                other[sig] = other.get(sig, 0) + 1
                 continue
             c.finding("queue:%s" % sig,
                       "notification_queue<%s>: call %s is not a step of the property model (%s)" % (pname(p), ev, why.get(ln)),
@@ -421,11 +479,134 @@ def replay(c, exe):
 
 
 # ------------------------------------------------------------------------------------------------------------------
-# C11 at ATT level
+# C11 at ATT level: real bluetoe::server + connection, PDUs 0x1B / 0x1D / 0x1E
 # ------------------------------------------------------------------------------------------------------------------
-def att_level(c, workers):
-    pass
+SERVERS = {3: {"CanN": [0, 2], "CanI": [0, 1]}, 1: {"CanN": [0], "CanI": [0]}}
+
+
+def att_gen_cfg(c, nc, d, name, resub=0, fixed=None, avoid=False):
+    s = SERVERS[nc]
+    f = list(fixed or [0, 0, 0])
+    return vlib.write_cfg(c, name, "CONSTANTS NC = %d CanN = {%s} CanI = {%s} D = %d MaxResub = %d FixedSub = %s F0 = %d F1 = %d F2 = %d "
+                                   "AvoidUnsubInd = %s\nSPECIFICATION GSpec\nINVARIANTS Emit\nCHECK_DEADLOCK FALSE\n"
+                          % (nc, ",".join(map(str, s["CanN"])), ",".join(map(str, s["CanI"])), d, resub,
+                             "TRUE" if fixed else "FALSE", f[0], f[1], f[2], "TRUE" if avoid else "FALSE"))
+
+
+def att_trace_cfg(c, nc):
+    return vlib.write_cfg(c, "atrace_%d.cfg" % nc, "CONSTANTS NC = %d\nSPECIFICATION TSpec\nINVARIANTS ATypeOK\nCHECK_DEADLOCK FALSE\n" % nc)
+
+
+def att_script(nc, behaviour, drain=True):
+    return ["reset %d" % nc] + [" ".join(str(x) for x in op) for op in behaviour] + (["drain"] if drain else [])
+
+
+def att_ops_of_events(evs):
+    ops = []
+    for ev in evs:
+        e = ev["e"]
+        if e == "Reset":
+            ops.append("reset %d" % ev["nc"])
+        elif e == "sub":
+            ops.append("sub %d %d" % (ev["c"], ev["f"]))
+        elif e in ("notify", "indicate", "read"):
+            ops.append("%s %d" % (e, ev["c"]))
+        elif e == "poll":
+            ops.append("poll")
+        elif e == "confirm":
+            ops.append("confirm %d" % ev["len"])
+        elif e == "Drained":
+            ops.append("mark")
+    return ops
+
+
+def att_signature(why):
+    if not why:
+        return "att:unclassified"
+    return "att:" + ":".join(("kinds=" + "+".join(sorted(x))) if isinstance(x, list) else str(x) for x in why)
+
+
+def att_report(c, nc, execs, mismatch_lines, why):
+    for ln in mismatch_lines:
+        first, evs = [e for e in execs if e[0] <= ln][-1]
+        ev = evs[ln - first]
+        c.finding(att_signature(why.get(ln)),
+                  "server with %d characteristic(s): %s is not a step of the ATT level model (%s)" % (nc, ev, why.get(ln)),
+                  {"level": "att", "nc": nc, "ops": att_ops_of_events(evs[:ln - first + 1])})
+
+
+def att_level(c):
+    exe = vlib.build(c, "notifq_att", ["notifq/notifq_att_harness.cpp"])
+    quick = c.quick
+    jobs = []
+    # all call sequences of depth D: the single characteristic server from every CCCD value; the three characteristic
+    # server from the corner subscription {0: both, 1: none, 2: notifications} (and from every CCCD vector in thorough)
+    jobs.append((1, dict(module="NotifQueueAttGen.tla", cfg=att_gen_cfg(c, 1, 3 if quick else 4, "agen_1.cfg"))))
+    jobs.append((3, dict(module="NotifQueueAttGen.tla", cfg=att_gen_cfg(c, 3, 4, "agen_3f.cfg", fixed=[3, 0, 1]))))
+    if not quick:
+        jobs.append((3, dict(module="NotifQueueAttGen.tla", cfg=att_gen_cfg(c, 3, 3, "agen_3.cfg"))))
+    nw, depth = (150, 30) if quick else (1500, 50)
+    for nc in (3, 1):
+        for avoid in (False, True):
+            jobs.append((nc, dict(module="NotifQueueAttGen.tla",
+                                  cfg=att_gen_cfg(c, nc, depth, "awalk_%d_%d.cfg" % (nc, avoid), resub=3, avoid=avoid),
+                                  simulate=max(1, nw // 2), depth=depth + nc + 1, seed=c.seed)))
+    results = par_tlc([j[1] for j in jobs])
+    behs = {3: [], 1: []}
+    for (nc, kw), r in zip(jobs, results):
+        if r.violated or r.error:
+            raise vlib.ToolFailure("ATT generator failed for %s: %s %s\n%s" % (kw["cfg"], r.violated, r.error, r.out[-2000:]))
+        b = vlib.behaviours(r)
+        if not b:
+            raise vlib.ToolFailure("ATT generator produced nothing for %s" % kw["cfg"])
+        if "simulate" not in kw:
+            c.add_model_run("NotifQueueAttGen", os.path.basename(kw["cfg"]), r)
+        behs[nc] += b
+    c.sample({"att_server": 3, "behaviour": behs[3][len(behs[3]) // 2]})
+    tjobs = []
+    for nc, bl in behs.items():
+        total = sum(len(b) + 6 for b in bl)
+        for k, part in enumerate(vlib.chunks(bl, max(1, min(8, total // 15000)))):
+            sp = vlib.write_lines(os.path.join(c.build_dir, "as_%d_%d.txt" % (nc, k)), [l for b in part for l in att_script(nc, b)])
+            tp = os.path.join(c.build_dir, "at_%d_%d.ndjson" % (nc, k))
+            rc, out = vlib.run_harness(exe, [sp, tp])
+            if rc != 0:
+                raise vlib.ToolFailure("ATT harness failed rc=%d: %s" % (rc, out[-2000:]))
+            tjobs.append((nc, tp))
+    verdicts = validate_many(c, "NotifQueueAttTrace.tla", [(att_trace_cfg(c, nc), tp) for nc, tp in tjobs])
+    by_action = c.extra.setdefault("att_events_by_action", {})
+    pdus = c.extra.setdefault("att_pdus", {})
+    for (nc, tp), v in zip(tjobs, verdicts):
+        execs = vlib.split_executions(tp)
+        c.add_traces(len(execs), v.events)
+        for _, evs in execs:
+            for ev in evs:
+                by_action[ev["e"]] = by_action.get(ev["e"], 0) + 1
+                if ev["e"] == "poll":
+                    pdus[str(ev["op"])] = pdus.get(str(ev["op"]), 0) + 1
+                if ev["e"] == "confirm":
+                    k = "confirm_len_%d" % ev["len"]
+                    pdus[k] = pdus.get(k, 0) + 1
+        att_report(c, nc, execs, v.mismatch_lines, parse_why(v.out))
+    for a in ("sub", "notify", "indicate", "poll", "confirm", "read", "Drained"):
+        if not by_action.get(a):
+            raise vlib.ToolFailure("vacuous: no '%s' event in the ATT level traces" % a)
+    for k in ("27", "29", "0", "confirm_len_1", "confirm_len_2", "confirm_len_3"):
+        if not pdus.get(k):
+            raise vlib.ToolFailure("vacuous: no %s in the ATT level traces" % k)
+    c.sample({"att_server": tjobs[0][0], "trace": vlib.split_executions(tjobs[0][1])[0][1][:25]})
 
 
 def att_replay(c, case):
-    pass
+    exe = vlib.build(c, "notifq_att", ["notifq/notifq_att_harness.cpp"])
+    nc = case["nc"]
+    sp = vlib.write_lines(os.path.join(c.build_dir, "areplay.txt"), case["ops"])
+    tp = os.path.join(c.build_dir, "areplay.ndjson")
+    rc, out = vlib.run_harness(exe, [sp, tp])
+    if rc != 0:
+        raise vlib.ToolFailure("ATT harness failed rc=%d: %s" % (rc, out[-2000:]))
+    v = vlib.validate_trace(MOD, "NotifQueueAttTrace.tla", att_trace_cfg(c, nc), tp)
+    execs = vlib.split_executions(tp)
+    c.add_traces(len(execs), v.events)
+    c.sample(execs[0][1][:60])
+    att_report(c, nc, execs, v.mismatch_lines, parse_why(v.out))
